@@ -61,6 +61,14 @@ class Kind:
                 return trunc_int(SReal(zz)).z
             return zz
         # bit-vector kinds
+        from .proxies import SPyInt
+        if isinstance(v, SPyInt):
+            # a Python int stored into a numpy integer array: must fit (NumPy 2 raises OverflowError)
+            lo, hi = (-(1 << (self.bits - 1)), (1 << (self.bits - 1)) - 1) if self.signed else (0, (1 << self.bits) - 1)
+            fits = z3.And(v.z >= max(lo, -(1 << 63)), v.z <= min(hi, (1 << 63) - 1))
+            if not eng().decide(fits):
+                raise OverflowError("Python integer out of bounds for %s" % self.name)
+            return v.cast(self.bits, self.signed).z
         if isinstance(v, SBV):
             return v.cast(self.bits, self.signed).z
         if isinstance(v, SBool):
@@ -96,6 +104,9 @@ INT64, UINT64, INT32, INT16 = Kind("int64"), Kind("uint64"), Kind("int32"), Kind
 
 
 def kind_of_value(v):
+    from .proxies import SPyInt
+    if isinstance(v, SPyInt):
+        return INT
     if isinstance(v, SBool) or isinstance(v, bool):
         return BOOL
     if isinstance(v, SInt) or isinstance(v, int):
